@@ -541,10 +541,38 @@ class NameConverter(ast.NodeTransformer):
                 for pos in self.analysis.name_to_positions.get(kw.arg, ())
             )
 
-        if any(isinstance(arg, ast.Starred) for arg in node.args) or (
-            is_recurse and any(_needs_binding(kw) for kw in node.keywords)
+        starred = any(isinstance(arg, ast.Starred) for arg in node.args)
+        if is_recurse and (
+            starred or any(_needs_binding(kw) for kw in node.keywords)
         ):
             return self.generic_visit(node)
+        if starred or any(kw.arg is None for kw in node.keywords):
+            # call_next(*args, **kwargs): what is passed is only known when
+            # the call is made, so the key is worked out then
+            # OVLD.__ovld__._call_next(CODE, (self,), *args, **kwargs)
+            selfarg = (
+                [ast.Name(id="self", ctx=ast.Load())]
+                if self.analysis.is_method
+                else []
+            )
+            new_node = ast.Call(
+                func=ast.Attribute(
+                    value=ast.Attribute(
+                        value=ast.Name(id=self.ovld_mangled, ctx=ast.Load()),
+                        attr="__ovld__",
+                        ctx=ast.Load(),
+                    ),
+                    attr="_call_next",
+                    ctx=ast.Load(),
+                ),
+                args=[
+                    ast.Name(id=self.code_mangled, ctx=ast.Load()),
+                    ast.Tuple(elts=selfarg, ctx=ast.Load()),
+                    *[self.visit(arg) for arg in node.args],
+                ],
+                keywords=[self.visit(kw) for kw in node.keywords],
+            )
+            return ast.copy_location(old_node=node, new_node=new_node)
 
         cn = node.func.id == self.call_next_sym
         tmp = f"__TMP{next(self.count)}_"
